@@ -259,6 +259,61 @@ func (w *Writer) verifControlSentinelGood(model PolyformModel) int {
 	return idx
 }
 
+// ---- REF-2
+
+func (w *Writer) verifControlRootBad(models []PolyformModel) {
+	for i, m := range models {
+		if m.Mesh == nil {
+			continue
+		}
+		w.nodes = append(w.nodes, Node{Name: m.Name})
+		w.scene = append(w.scene, i) // model counter, not the node's position
+	}
+}
+
+func (w *Writer) verifControlRootGood(models []PolyformModel) {
+	for i, m := range models {
+		_ = i
+		if m.Mesh == nil {
+			continue
+		}
+		w.scene = append(w.scene, w.verifControlNext())
+		w.nodes = append(w.nodes, Node{Name: m.Name})
+	}
+}
+
+func (w *Writer) verifControlNext() int { return len(w.nodes) }
+
+// ---- MINMAX-1 start values
+
+func (w *Writer) verifControlStartBad(data *iter.ArrayIterator[vector3.Float64]) Accessor {
+	max := vector3.Fill(math.SmallestNonzeroFloat64)
+	for i := 0; i < data.Len(); i++ {
+		v := data.At(i)
+		max = vector3.Max(max, v)
+		w.WriteVector3AsFloat32(v)
+	}
+	return Accessor{Max: []float64{max.X(), max.Y(), max.Z()}}
+}
+
+func (w *Writer) verifControlStartGood(data *iter.ArrayIterator[vector3.Float64], times []float64) Accessor {
+	max := vector3.Fill(math.Inf(-1))
+	lo := math.MaxFloat64
+	for i := 0; i < data.Len(); i++ {
+		v := data.At(i)
+		max = vector3.Max(max, v)
+		w.WriteVector3AsFloat32(v)
+	}
+	for _, t := range times {
+		if t < lo {
+			lo = t
+		}
+		w.bitW.Float32(float32(t))
+	}
+	_ = lo
+	return Accessor{Max: []float64{max.X(), max.Y(), max.Z()}, Min: []float64{lo}}
+}
+
 // ---- SINK-1 / BUF-1
 
 func verifControlSinkBad() *Writer {
@@ -363,6 +418,10 @@ var ctlCases = []ctlCase{
 	{"REF-1", "verifControlRefGood", ob.Holds},
 	{"DEDUP-2", "verifControlSentinelBad", ob.Violation},
 	{"DEDUP-2", "verifControlSentinelGood", ob.Holds},
+	{"REF-2", "verifControlRootBad", ob.Violation},
+	{"REF-2", "verifControlRootGood", ob.Holds},
+	{"MINMAX-1", "verifControlStartBad", ob.Violation},
+	{"MINMAX-1", "verifControlStartGood", ob.Holds},
 	{"SINK-1", "verifControlSinkBad", ob.Violation},
 	{"SINK-1", "verifControlSinkGood", ob.Holds},
 	{"BUF-1", "verifControlBufBad", ob.Violation},
